@@ -1162,13 +1162,17 @@ def same_type_fanin(prog: Program, limit: int = 3) -> bool:
     def visit(e):
         ops = operands_of(e)
         seen = {}
+        unknown = set()
         for o in ops:
             t = types.get(id(o))
-            if t is None or t == UNK:
+            if t is None:
                 continue
             key = repr(strip(o))
+            if t == UNK:
+                unknown.add(key)  # the compiler gives such a value *some* type: it may coincide with any other
+                continue
             seen.setdefault(t, set()).add(key)
-        if any(len(v) >= limit for v in seen.values()):
+        if any(len(v) + len(unknown) >= limit for v in seen.values()) or len(unknown) >= limit:
             return True
         return any(visit(c) for c in children(e) if not isinstance(c, str))
 
